@@ -70,7 +70,7 @@ def run(tier, replay=None):
   variants = [('plain', lambda prog, r: G.p_program(prog)),
               # the locals of sibling aggregating expressions / negations of one rule get the same names
               ('sibling_combines_share_local_names', V.siblings_share_local_names)]
-  K.run_core(rep, PID, tier, PROFILE, variants, 200, 3000, 'c02', replay=replay, ok=ok, info=info, accept=uses_c02)
+  K.run_core(rep, PID, tier, PROFILE, variants, 200, 1500, 'c02', replay=replay, ok=ok, info=info, accept=uses_c02)
   if not replay:
     from props import c07
     c07.sibling_scopes(rep, tier, salt='c02-siblings')   # chained aggregating expressions with clashing local names
